@@ -8,7 +8,7 @@ repository or a mixture of old and new shards.  A run that reports success has i
 Quantifier: every filesystem mutation point of a build that replaces an existing index with one that has more, fewer
 or the same number of shards, including delta builds that rewrite metadata sidecars; plus failures of individual renames.
 -/
-import ZoektModel.C12.Success
+import ZoektModel.C12.NoTrunc
 namespace ZoektModel.C12
 
 /-! ## old-or-new at every crash point: true exactly for the single-rename scenarios -/
@@ -100,6 +100,13 @@ theorem C12_success (s : Scn) (hwf : s.WF = true)
     (hok : (finish s ro dord fails).2 = false) :
     SameView (finalDir s ro dord fails) (newDir s) :=
   success_sameView s hwf ro hro dord hd fails hok
+
+/-- **C12 (never a truncated shard)**: at every crash point of every run (any scenario, any orders, any failures)
+    every file with a non-temporary name is complete. -/
+theorem C12_no_truncated (s : Scn) (ro : List (Path × Path)) (hro : ro.Perm (artifacts s))
+    (dord : List Path) (fails : Nat → Bool) (k : Nat) :
+    NoTrunc (crashDir s ro dord fails k) :=
+  crash_noTrunc s ro hro dord fails k
 
 /-! ## non-vacuity -/
 
